@@ -143,13 +143,13 @@ PROPS = {
         ],
     },
     "C05": {
-        "units": ["verify", "verify_rel", "transcripts"],
+        "units": ["verify", "verify_rel", "transcripts", "codec"],
         "design_ref": "DESIGN.md section 7, C05",
         "technique": "contract-based deductive verification (Verus): every proof element and statement field is proved to occur in the specified transcript log before the challenges that must depend on it, or in the specified residual; shape checks and point decoding are postconditions of Ok; rejections are Err values (panic freedom)",
         "claim": "Proved on the real verifier: (i) A, every L_j/R_j, A1, B and all statement data are absorbed before the challenges that follow them (C04) and r1, s1, every d1_k are absorbed "
                  "before the batch weights are derived (C08); (ii) every scalar and point of the proof and every commitment, promise and generator occurs in the specified residual "
                  "with the specified coefficient (C02); (iii) Ok implies equal L/R counts, 2^rounds == bits*aggregation, d1 length == extension degree for every member, and that "
-                 "every point of every member decodes; (iv) every rejection is an Err value, never a panic (C16). That an altered element makes the residual nonzero needs "
+                 "every point of every member decodes; (iv) every rejection is an Err value, never a panic (C16); (v) a serialized proof decodes only if every scalar slot is canonically encoded and the shape is exact (C15.decode_accepts_only_spec), so re-encoding a scalar as scalar + group order is refused at decoding. That an altered element makes the residual nonzero needs "
                  "independence of the generators (discrete log) and the random oracle: not decidable by contracts.",
         "assumptions": [
             "rejection of a single altered element is a cryptographic statement (discrete log + random oracle) and is not claimed; what is proved is that no element is ignored",
